@@ -356,9 +356,11 @@ impl ChangeQueueA {
 }
 //@ item rust/automerge/src/transaction/inner.rs | struct TransactionArgs
 
-pub struct Automerge { pub ops: OpSet, pub change_graph: ChangeGraph, pub queue: ChangeQueueA }
+pub struct Automerge { pub ops: OpSet, pub change_graph: ChangeGraph, pub queue: ChangeQueueA, pub configured_actor: ActorId }
 
 impl Automerge {
+    /// the document's CONFIGURED actor id (assumed accessor; under isolation the actor that signs the change may differ)
+    #[verifier::external_body] pub fn get_actor(&self) -> (r: &ActorId) ensures *r == self.configured_actor { unimplemented!() }
     pub open spec fn spec_heads(&self) -> Seq<ChangeHash> { self.change_graph.spec_heads() }
     pub open spec fn spec_hash(&self, actor: usize, seq: u64) -> ChangeHash { self.change_graph.spec_hash(actor, seq) }
     #[verifier::external_body]
